@@ -86,6 +86,7 @@ type collRun struct {
 	slow        bool
 	maxWrite    time.Duration
 	rounds      int
+	blockedAt   int // 1-based index of the write that did not return within 2 s (0: none)
 }
 
 // one random valid write on the collection; returns the event the store must have published
@@ -259,6 +260,119 @@ func runCollLossy(r *vcoq.Rand, rounds, burst int, nids int64, updatesOnly bool,
 		deadline.Stop()
 	}
 	run.slow = run.maxWrite > writeBudget
+	return run, nil
+}
+
+// The size dimension through the public API: ONE burst that leaves n different ids changed while
+// the lossy subscriber takes nothing (it may have taken a few of its seed events), then the drain.
+// A stage with a capacity (bounded map / queue, "hand over the oldest first") makes some write of
+// the burst wait for the reader; every write is timed (2 s guard = blocked).  The first `pre`
+// writes of the script happen before the subscription opens (a seeded subscriber gets their fold
+// as its seed, an updates-only one is taken to know them, see runCollLossy).
+func runCollBig(r *vcoq.Rand, n int, updatesOnly bool, pre int) (collRun, error) {
+	run := collRun{converged: true, rounds: 1, updatesOnly: updatesOnly, scenario: fmt.Sprintf("one burst over %d different ids (+%d that are added and removed) while the subscriber takes nothing, then it drains", n, n/5)}
+	wc := newWClock(r)
+	run.writeTimes = wc.on
+	var plan []act
+	for _, a := range bigBurst(r, n, 0) {
+		if a.Kind == 'S' {
+			plan = append(plan, a)
+		}
+	}
+	if pre > len(plan) {
+		pre = len(plan)
+	}
+	c := resource.NewCollection()
+	s := newSState()
+	committed, seen := map[int64]int64{}, map[int64]int64{}
+	write := func(a act) (cchange, time.Duration, error) {
+		return collWriteAt(c, s, a.C.ID, "?aud"[a.C.Kind], wc)
+	}
+	for _, a := range plan[:pre] {
+		ev, _, err := write(a)
+		if err != nil {
+			return run, fmt.Errorf("collection write failed: %v", err)
+		}
+		run.sent = append(run.sent, ev)
+		foldGo(committed, ev)
+		if updatesOnly {
+			run.got = append(run.got, ev)
+			foldGo(seen, ev)
+		}
+	}
+	run.pre = len(committed)
+	ctx, cancel := context.WithCancel(context.Background())
+	defer cancel()
+	ch := c.Pull(ctx, resource.WithUpdatesOnly(updatesOnly))
+	take := func() bool {
+		select {
+		case e, ok := <-ch:
+			if !ok {
+				return false
+			}
+			cc := canonAPI(e)
+			run.got = append(run.got, cc)
+			foldGo(seen, cc)
+			return true
+		case <-time.After(convergeBudget):
+			return false
+		}
+	}
+	if !updatesOnly && run.pre > 0 {
+		run.seedsTaken = r.Intn(min(run.pre, 4))
+		for i := 0; i < run.seedsTaken; i++ {
+			if !take() {
+				run.converged = false
+				return run, nil
+			}
+		}
+	}
+	for _, a := range plan[pre:] {
+		ev, dt, err := write(a)
+		if err == errBlocked {
+			run.sent = append(run.sent, ev)
+			run.slow, run.converged, run.blockedAt = true, false, len(run.sent)
+			return run, nil
+		}
+		if err != nil {
+			return run, fmt.Errorf("collection write failed: %v", err)
+		}
+		run.sent = append(run.sent, ev)
+		foldGo(committed, ev)
+		if dt > run.maxWrite {
+			run.maxWrite = dt
+		}
+	}
+	// drain: at most one event per id ever touched (+ seed), then a quiet period
+	for budget := len(plan) + run.pre + 2; budget > 0 && !(len(seen) == len(committed) && sameView(committed, seen)); budget-- {
+		if !take() {
+			run.converged = false
+			return run, nil
+		}
+	}
+	if !sameView(committed, seen) {
+		run.converged = false
+		return run, nil
+	}
+	for {
+		t := time.NewTimer(quiet)
+		select {
+		case e, ok := <-ch:
+			t.Stop()
+			if ok {
+				cc := canonAPI(e)
+				run.got = append(run.got, cc)
+				foldGo(seen, cc)
+				continue
+			}
+		case <-t.C:
+		}
+		break
+	}
+	// over thousands of writes on a loaded host one scheduling hiccup above the 250 ms budget is
+	// likely; what the size dimension looks for is a writer WAITING (blocked above), so the
+	// latency budget is four times the usual one here
+	run.slow = run.maxWrite > 4*writeBudget
 	return run, nil
 }
 
@@ -524,24 +638,113 @@ func runWaits(useValue bool) (first, early, after bool) {
 	return
 }
 
-// Value.Set with a backpressured subscriber that never receives: the second write must come
-// back with an error after the five second send timeout (thorough tier only: takes 5 s)
-func runTimeout() (errored bool, ms int64) {
+// Value.Set with a backpressured subscriber that has stopped receiving: the write whose event cannot
+// be handed over must come back with an ERROR after the five second send timeout -- not hang, and
+// not report success for an event nobody was sent -- and the resource must be usable afterwards: once
+// the subscriber resumes (or cancels) the next write proceeds and is delivered.  One measurement
+// takes ~5 s of waiting (no CPU); it runs beside the other public-API runs, in both tiers.
+//
+//	resume = true : updates-only subscriber; write 1 is absorbed by the Pull goroutine, write 2 times
+//	                out; the subscriber then receives (gets 1), write 3 must return and be delivered;
+//	                then it cancels and write 4 must return
+//	resume = false: seeded subscriber that never takes its seed (its Pull goroutine never reads the
+//	                bus): write 1 times out; the subscriber cancels; write 2 must return
+type timeoutRun struct {
+	resume      bool
+	errored     bool
+	ms          int64
+	laterOK     bool
+	laterDetail string
+	written     []int64 // every value passed to Set while the subscription was open, in order
+	got         []int64 // what the subscriber received (resume only)
+}
+
+func (t timeoutRun) good() bool { return t.errored && t.ms >= 4000 && t.ms <= 9000 && t.laterOK }
+
+func runTimeout(resume bool) (run timeoutRun) {
+	run.resume = resume
 	ctx, cancel := context.WithCancel(context.Background())
 	defer cancel()
 	v := resource.NewValue(resource.WithInitialValue(tok(0)))
-	_ = v.Pull(ctx, resource.WithBackpressure(true), resource.WithUpdatesOnly(true))
-	if _, err := v.Set(tok(1)); err != nil {
-		return false, 0
+	ch := v.Pull(ctx, resource.WithBackpressure(true), resource.WithUpdatesOnly(resume))
+	next := int64(1)
+	set := func() (time.Duration, error, bool) {
+		tk := tok(next)
+		run.written = append(run.written, next)
+		next++
+		return timed(func() error { _, e := v.Set(tk); return e })
 	}
+	if resume {
+		if _, err, blocked := set(); err != nil || blocked {
+			run.laterDetail = "the first write (absorbed by the Pull goroutine) did not return"
+			return
+		}
+	}
+	// the write that cannot be delivered
 	done := make(chan error, 1)
 	t0 := time.Now()
-	go func() { _, err := v.Set(tok(2)); done <- err }()
+	tk := tok(next)
+	run.written = append(run.written, next)
+	next++
+	go func() { _, err := v.Set(tk); done <- err }()
 	select {
 	case err := <-done:
-		return err != nil, time.Since(t0).Milliseconds()
+		run.errored, run.ms = err != nil, time.Since(t0).Milliseconds()
 	case <-time.After(12 * time.Second):
-		return false, 12000
+		run.errored, run.ms = false, 12000
+		run.laterDetail = "the undeliverable write was still blocked after 12 s"
+		return
+	}
+	recv := func() bool {
+		select {
+		case e, ok := <-ch:
+			if !ok {
+				return false
+			}
+			run.got = append(run.got, *canonValue(e.Value))
+			return true
+		case <-time.After(2 * time.Second):
+			return false
+		}
+	}
+	if resume {
+		if !recv() {
+			run.laterDetail = "the resumed subscriber received nothing within 2 s"
+			return
+		}
+		if _, err, blocked := set(); err != nil || blocked {
+			run.laterDetail = fmt.Sprintf("the write after the subscriber resumed did not return within 2 s or failed (blocked=%v err=%v)", blocked, err)
+			return
+		}
+		if !recv() {
+			run.laterDetail = "the write after the subscriber resumed was not delivered within 2 s"
+			return
+		}
+	}
+	cancel()
+	open := len(run.written) // `written` lists the writes made while the subscription was open
+	_, err, blocked := set()
+	run.written = run.written[:open]
+	if err != nil || blocked {
+		run.laterDetail = fmt.Sprintf("the write after the subscriber cancelled did not return within 2 s or failed (blocked=%v err=%v)", blocked, err)
+		return
+	}
+	run.laterOK = true
+	return
+}
+
+func timeoutCase(t timeoutRun) vcoq.Case {
+	what := "seeded backpressured subscriber never takes its seed; write 1 cannot be handed over; then the subscriber cancels and write 2 runs"
+	if t.resume {
+		what = "updates-only backpressured subscriber stops receiving; write 1 is absorbed by the Pull goroutine, write 2 cannot be handed over; then the subscriber receives, write 3 runs and is received; it cancels, write 4 runs"
+	}
+	return vcoq.Case{
+		Coq: fmt.Sprintf("KApiTimeout %s %s %s %s %s %s", blit(t.resume), blit(t.errored), zlit(t.ms), blit(t.laterOK), listZ(t.written), listZ(t.got)),
+		JSON: map[string]any{"kind": "Value.Set send timeout", "scenario": what, "undeliverable_write_returned_error": t.errored, "elapsed_ms": t.ms,
+			"later_writes_ok": t.laterOK, "later_detail": t.laterDetail, "written": t.written, "received": t.got},
+		Key:        fmt.Sprintf("api:timeout:%v", t.resume),
+		NonTrivial: true,
+		Tags:       []string{"api:send-timeout"},
 	}
 }
 
@@ -971,6 +1174,9 @@ func collCase(kind string, run collRun) vcoq.Case {
 	if run.scenario != "" {
 		js["subscribers"] = run.scenario
 	}
+	if run.blockedAt > 0 {
+		js["write_that_did_not_return_within_2s"] = fmt.Sprintf("write #%d (the last of `committed`)", run.blockedAt)
+	}
 	return vcoq.Case{
 		Coq:        fmt.Sprintf("KApiColl %s %s %s %s %s", blit(run.bp), coqChanges(run.sent), coqChanges(run.got), blit(run.converged), blit(run.slow)),
 		JSON:       js,
@@ -1010,6 +1216,18 @@ func genAPI(o *vcoq.Out, r *vcoq.Rand, thorough bool) error {
 	if thorough {
 		nl, nb, nm = 600, 150, 200
 	}
+	// the send-timeout measurements wait 5 s each: they run beside everything else of this stage
+	// (both scenarios at once; a failing measurement is taken a second time before it is reported)
+	timeouts := make(chan timeoutRun, 2)
+	for _, resume := range []bool{true, false} {
+		go func(resume bool) {
+			t := runTimeout(resume)
+			if !t.good() {
+				t = runTimeout(resume)
+			}
+			timeouts <- t
+		}(resume)
+	}
 	// runs are independent; execute them concurrently (they mostly wait), generate inputs serially
 	type job struct {
 		kind        string
@@ -1048,6 +1266,15 @@ func genAPI(o *vcoq.Out, r *vcoq.Rand, thorough bool) error {
 		jobs = append(jobs, job{"coll-bp", r.U64(), r.Range(1, 60), 0, ids, uo, false, pre})
 		jobs = append(jobs, job{"value-bp", r.U64(), r.Range(1, 60), 0, 0, uo, false, 0})
 	}
+	// the size dimension: 600..2000 different ids behind
+	nbig := [][3]int{{r.Range(600, 700), 0, 0}, {r.Range(1000, 1300), 1, r.Range(1, 40)}, {r.Range(1800, 2100), 0, r.Range(300, 900)}}
+	if thorough {
+		nbig = append(nbig, [3]int{r.Range(600, 2000), 1, 0}, [3]int{r.Range(2500, 4000), 0, r.Range(0, 5)}, [3]int{r.Range(600, 1200), 0, r.Range(400, 700)},
+			[3]int{r.Range(1200, 2000), 1, r.Range(400, 900)})
+	}
+	for _, b := range nbig {
+		jobs = append(jobs, job{"coll-big", r.U64(), b[0], 0, 0, b[1] == 1, false, b[2]})
+	}
 	for i := 0; i < nm; i++ {
 		jobs = append(jobs, job{"multi-coll", r.U64(), 0, 0, int64(r.Range(1, 3)), i%4 >= 2, i%2 == 0, 0})
 		jobs = append(jobs, job{"multi-value", r.U64(), r.Range(3, 20), 0, 0, i%4 >= 2, i%2 == 0, 0})
@@ -1071,6 +1298,11 @@ func genAPI(o *vcoq.Out, r *vcoq.Rand, thorough bool) error {
 			case "coll-lossy":
 				var run collRun
 				run, err = runCollLossy(vcoq.NewRand(j.seed), j.a, j.b, j.ids, j.updatesOnly, j.pre)
+				bad = !run.converged || run.slow
+				cs = []vcoq.Case{collCase(j.kind, run)}
+			case "coll-big":
+				var run collRun
+				run, err = runCollBig(vcoq.NewRand(j.seed), j.a, j.updatesOnly, j.pre)
 				bad = !run.converged || run.slow
 				cs = []vcoq.Case{collCase(j.kind, run)}
 			case "coll-bp":
@@ -1156,15 +1388,12 @@ func genAPI(o *vcoq.Out, r *vcoq.Rand, thorough bool) error {
 			Tags:       []string{"api:writer-waits"},
 		})
 	}
-	if thorough {
-		errored, ms := runTimeout()
-		o.Add(vcoq.Case{
-			Coq:        fmt.Sprintf("KApiTimeout %s %s", blit(errored), zlit(ms)),
-			JSON:       map[string]any{"kind": "Value.Set send timeout", "errored": errored, "elapsed_ms": ms},
-			Key:        "api:timeout",
-			NonTrivial: true,
-			Tags:       []string{"api:send-timeout"},
-		})
+	tr := []timeoutRun{<-timeouts, <-timeouts}
+	if tr[0].resume != true {
+		tr[0], tr[1] = tr[1], tr[0]
+	}
+	for _, t := range tr {
+		o.Add(timeoutCase(t))
 	}
 	return nil
 }
